@@ -328,7 +328,7 @@ def answers_stage(chk):
     while len(rows) < n:
         m = rng.choice(methods)
         resp = G.gen_resp(rng, m, rng.randint(0, 3), ["a:1", "a:2"], ["a:1", "a:2", "b:1"])
-        if resp[0] == "raise":
+        if resp[0] in ("raise", "echo"):
             continue
         mode = rng.weighted([(0, 5), (1, 3), (2, 2)])
         # check_instance(x, cls) is only ever applied with a model class (C09_object_answers_are_check_instance)
